@@ -22,8 +22,8 @@ EXPLANATION = (
     "in free_all and reserve_all is consumed by an iterator loop that runs to exhaustion and writes its element unconditionally, or is "
     "split further, or (single boundary element) is written directly over its whole range; the written constants match the region "
     "(free_all: full tables LEN free, inside bitfields all-zero, boundary bitfield [0,end) zero / [end,LEN) one, outside all-one; "
-    "reserve_all: whole huge frames marked huge, the rest 0 free with all-one bitfields); split points are frames / LEN and the boundary "
-    "end = frames - included.len() * LEN; last-table counters are min(frames - index, LEN) saturating. R-REBUILD-ORDER (C05) covers "
+    "reserve_all: whole huge frames marked huge, the rest 0 free with all-one bitfields); split points are frames / LEN (bitfields), frames / LEN - full tables * TREE_HUGE "
+    "(boundary table of reserve_all) and the boundary end = frames - included.len() * LEN; last-table counters are min(frames - index, LEN) saturating. R-REBUILD-ORDER (C05) covers "
     "'tree counters from lower statistics'."
 )
 
@@ -233,6 +233,15 @@ def analyse(rep, prog, fn, rule, spec):
                 if divs and lens:
                     d = divs[0]
                     good = d[2][0] == "call" and d[2][1].endswith("Lower::frames") and T.const_val(d[3]) == LEN
+            if not good:
+                # equivalent spelling: (frames - full tables * TREE_FRAMES) / LEN  (TREE_FRAMES is a multiple of LEN)
+                kk = T.strip_casts(k)
+                if kk[0] == "bin" and kk[1] == "Div" and T.const_val(kk[3]) == LEN:
+                    li = T.linear(kk[2])
+                    if li is not None and li[1] == 0 and len(li[0]) == 2:
+                        fr = [a for a, v in li[0].items() if v == 1 and a[0] == "call" and a[1].endswith("Lower::frames")]
+                        ln = [a for a, v in li[0].items() if v == -TH * LEN and a[0] == "call" and a[1] == "slice::len"]
+                        good = bool(fr and ln)
             rep.check(good, rule, "%s|table-split-point" % fn.split("::")[-1], "boundary table split at frames / LEN - full tables * TREE_HUGE",
                       "the boundary table is split at %s, expected frames / LEN - tables.len() * TREE_HUGE (whole huge frames only)" % str(k)[:200], t["span"])
     return leaves
